@@ -435,12 +435,11 @@ class Interp:
             if len(args) == 1 and isinstance(args[0], SStr):
                 return models.SymPath(raw=args[0])
             raise HarnessError('Path(...) of these symbolic arguments is not modelled')
-        if cls in (str, int, bool, list, tuple, dict, set, frozenset, type, isinstance):
-            m = _BUILTIN_MODELS.get(cls)
-            if m is not None:
-                r = m(self, args, kwargs)
-                if r is not NotImplemented:
-                    return r
+        m = _BUILTIN_MODELS.get(cls)
+        if m is not None:
+            r = m(self, args, kwargs)
+            if r is not NotImplemented:
+                return r
             return cls(*args, **kwargs)
         init = cls.__dict__.get('__init__') if '__init__' in cls.__dict__ else \
             inspect.getattr_static(cls, '__init__', None)
